@@ -91,21 +91,30 @@ def build(module):
         e = eng.ev(__import__('ast').parse('__exc__', mode='eval').body, eng._raise_frame) if False else None
         return None
 
+    class RegexLikeError(ESE):
+        """a subclass of the syntax error (as ECMARegexSyntaxError is): re-labelling must keep the class"""
+
     class ParserModel(object):
+        def __init__(self, syntax_error=ESE):
+            self.syntax_error = syntax_error
+
         def make(self, name):
             def eff(e, a, k):
                 w.texts_parsed.append(a[0] if a else None)
                 r = PObj(object, name='tree')
                 r.fields['sourcepath'] = None
                 return r
-            return PExt('parser', eff, raises=(ESE, Boom, Abort))
+            return PExt('parser', eff, raises=(self.syntax_error, Boom, Abort))
+
+        def __repr__(self):
+            return 'Parser(raising %s)' % self.syntax_error.__name__
 
     env = {'__reset__': w.reset, 'closed_right': Helper(closed_right),
            'repr_compat': PExt('repr_compat', lambda e, a, k: e.fresh(Str, 'repr'))}
 
-    def relabelled(eng, exc):
+    def relabelled(eng, exc, cls=ESE):
         # a syntax error from the parser is re-raised as the same class with a new message built by the function
-        return isinstance(exc, PExc) and exc.cls is ESE and exc.tag is None and len(exc.args) == 1
+        return isinstance(exc, PExc) and exc.cls is cls and exc.tag is None and len(exc.args) == 1
 
     def propagated(eng, exc):
         return isinstance(exc, PExc) and exc.cls in (Boom, Abort) and exc.tag is not None
@@ -115,12 +124,13 @@ def build(module):
 
     cs = []
     for kind, sty in (('factory', Factory(w)), ('open stream', OpenStream(w)), ('open stream without name', OpenStream(w, 'none'))):
-        cs.append(Contract(
-            MODULE + ':read', params={'parser': ParserModel(), 'stream': sty},
-            ensures=['closed_right()', 'result.sourcepath == %r' % (None if 'without' in kind else 'stream.js'), 'parsed_what_was_read()'],
-            raises={'ECMASyntaxError': 'closed_right() and relabelled(__exc__)',
-                    'Boom': 'closed_right() and propagated(__exc__)', 'Abort': 'closed_right() and propagated(__exc__)'},
-            env=env, notes=kind))
+        for ecls in (ESE, RegexLikeError):
+            cs.append(Contract(
+                MODULE + ':read', params={'parser': ParserModel(ecls), 'stream': sty},
+                ensures=['closed_right()', 'result.sourcepath == %r' % (None if 'without' in kind else 'stream.js'), 'parsed_what_was_read()'],
+                raises={'ECMASyntaxError': 'closed_right() and relabelled(__exc__, the_class)',
+                        'Boom': 'closed_right() and propagated(__exc__)', 'Abort': 'closed_right() and propagated(__exc__)'},
+                env=dict(env, the_class=ecls), notes=kind + ('' if ecls is ESE else ', parser raises a subclass of the syntax error')))
 
     # ---- io.write
     smod = PObj(object, name='sourcemap')
